@@ -213,10 +213,12 @@ def _c(i):
 # ------------------------------------------------------------------ headers / order / order independence
 def _pipeline(order_i, pos_i, swap, method_i, seed=7, init_calls=0):
     """two concrete targets in either input order; Bio FASTA reading / writing stubbed"""
-    targets = [('TAGK', 'hdr1|x'), ('SAAR', 'hdr2|y')]
+    targets = [('TAGK', 'hdr1|x hdr3|z|2'), ('SAAR', 'hdr2|y')]
     if swap:
         targets = [targets[1], targets[0]]
-    recs = [SeqRecord(Seq(s), id=h, name=h, description=h) for s, h in targets]
+    # as Bio's FASTA reader builds records: id / name = the first word of the title, description = the whole title
+    # (a peptide with two header entries has a title with a blank in it)
+    recs = [SeqRecord(Seq(s), id=h.split(' ')[0], name=h.split(' ')[0], description=h) for s, h in targets]
     order = ['juxtaposed', 'target_first', 'decoy_first'][order_i]
     position = ['prefix', 'suffix'][pos_i]
     method = ['reverse', 'shuffle'][method_i]
@@ -267,7 +269,7 @@ def _check_pipeline(order_i, pos_i, method_i):
         return -1                  # output (as a set of records) depends on the order of the input
     if len(a) != 4:
         return -2
-    tgt = {'hdr1|x': 'TAGK', 'hdr2|y': 'SAAR'}
+    tgt = {'hdr1|x hdr3|z|2': 'TAGK', 'hdr2|y': 'SAAR'}
     dec = {}
     for h, s in a:
         if h in tgt:
